@@ -900,7 +900,8 @@ impl<'a> ArxmlParser<'a> {
                     let mut valid = false;
                     if let Some(endpos) = rem.find(';') {
                         let hextxt = &rem[3..endpos];
-                        if let Ok(hexval) = u32::from_str_radix(hextxt, 16) {
+                        // from_str_radix also accepts a leading '+', which is not part of a character reference
+                        if let (false, Ok(hexval)) = (hextxt.starts_with('+'), u32::from_str_radix(hextxt, 16)) {
                             if let Some(ch) = char::from_u32(hexval) {
                                 unescaped.push(ch);
                                 rem = &rem[endpos + 1..];
@@ -920,7 +921,7 @@ impl<'a> ArxmlParser<'a> {
                     let mut valid = false;
                     if let Some(endpos) = rem.find(';') {
                         let numtxt = &rem[2..endpos];
-                        if let Ok(val) = u32::from_str(numtxt) {
+                        if let (false, Ok(val)) = (numtxt.starts_with('+'), u32::from_str(numtxt)) {
                             if let Some(ch) = char::from_u32(val) {
                                 unescaped.push(ch);
                                 rem = &rem[endpos + 1..];
